@@ -405,8 +405,40 @@ let acspec line =
     Printf.sprintf "%s:%d" (hex t) (int_of_nat c)
   | _ -> failwith "acspec"
 
+(* aspec: the ABSTRACT SESSION (Spec/Session.v: ideal line + abstract history + dispatch) run on the events the extracted decoder makes of
+   the bytes of a `ses` line (raw command set). One record per input byte: line | cursor | history entries | handler calls.
+   w: / p: ops do not touch the abstract state; sessions with x: (faults) are not for this engine. *)
+let aspec line =
+  match String.split_on_char ' ' line with
+  | cap :: hcap :: pi :: "raw" :: rest ->
+    let ops = String.concat " " rest in
+    let cap = nat_of_int (int_of_string cap) and hc = nat_of_int (int_of_string hcap) in
+    let cs = if int_of_nat hc mod 2 = 1 then raw_cmdset_rejecting else raw_cmdset in
+    let a = ref (astate0 (prompt_of (nat_of_int (int_of_string pi)))) and g = ref ig0 in
+    let out = ref [] in
+    let emit calls =
+      let l = !a.aline in
+      out := Printf.sprintf "%s|%d|%s|%s" (hex (ibytes l)) (int_of_nat l.icur)
+               (join "," (List.map hex !a.ahist.ents))
+               (join "+" (List.map (fun c -> !calls_fmt c) calls)) :: !out in
+    emit [];
+    List.iter (fun op ->
+      let (name, arg) = split_once ':' op in
+      match name with
+      | "b" -> List.iter (fun b ->
+                 let (g', oi) = accept !g b in g := g';
+                 (match oi with
+                  | Some ev -> let (a', calls) = astep !feats cs handler_raw cap hc !a ev in a := a'; emit calls
+                  | None -> emit [])) (unhex arg)
+      | "w" | "p" -> emit []
+      | _ -> failwith "aspec op")
+      (List.filter (fun s -> s <> "") (split_on ';' ops));
+    String.concat " ; " (List.rev !out)
+  | _ -> "n/a"
+
 let dispatch (e : string) : string -> string =
   match e with
+  | "aspec" -> aspec
   | "quote" -> quote | "tokspec" -> tokspec | "wrspec" -> wrspec | "termchk" -> termchk | "termproj" -> termproj | "screen" -> screen | "edspec" -> edspec
   | "histspec" -> histspec | "argspec" -> argspec | "acspec" -> acspec
   | _ -> dispatch e
